@@ -72,7 +72,10 @@ def case_blur(ctx, rng, wd, unequal):
     N = int(rng.integers(2, 25))
     rank = int(rng.choice([0, 0, 1, 2]))
     cell = gc.make_cell(rng, d, "ortho", lmin=3.0, lmax=9.0)
-    snaps = gc.snapshots_from([gc.snapshot_from(cell, rng.random((N, d)), np.ones(N, dtype=int), 100 * t) for t in range(T)])
+    # the box (lengths and origin) may change from frame to frame (NPT runs, deformation): every frame has its own grid
+    vary = T > 1 and rng.random() < 0.5
+    cells = [cell] + [gc.make_cell(rng, d, "ortho", lmin=3.0, lmax=9.0) if vary else cell for _ in range(T - 1)]
+    snaps = gc.snapshots_from([gc.snapshot_from(cells[t], rng.random((N, d)), np.ones(N, dtype=int), 100 * t) for t in range(T)])
     if unequal:
         ng = np.array([int(rng.choice([1, 2, 3, 4, 5, 7])) for _ in range(d)])
         if len(set(ng.tolist())) == 1:
@@ -81,7 +84,7 @@ def case_blur(ctx, rng, wd, unequal):
     else:
         ng = np.full(d, int(rng.integers(2, 7)))
     sigma = float(rng.uniform(0.3, 2.0))
-    L = np.diag(cell["H"])
+    L = np.min([np.diag(c["H"]) for c in cells], axis=0)
     cut = float(rng.uniform(0.8, 0.49 * L.min() / 0.5 * 0.5))
     cut = min(cut, 0.49 * L.min())
     ppp = gc.random_mask(rng, d)
@@ -90,7 +93,7 @@ def case_blur(ctx, rng, wd, unequal):
     out = os.path.join(wd, "gb") if rng.random() < 0.2 else ""
     info = lambda: {"d": d, "T": T, "N": N, "rank": rank, "ngrids": ng, "sigma": sigma, "cut": cut, "ppp": pin, "L": L, "origin": cell["origin"],  # noqa: E731
                     "positions": [s.positions for s in snaps.snapshots] if N <= 12 else "omitted"}
-    key = "gaussian_blurring/" + ("unequal_grid" if unequal else "equal_grid") + f"/{d}D"
+    key = "gaussian_blurring/" + ("unequal_grid" if unequal else "equal_grid") + f"/{d}D" + ("/varying_box" if vary else "")
     ok, res = ctx.call(key, gaussian_blurring, snaps, A.copy(), ng.copy(), sigma, pin.copy(), cut, out, data=info)
     ctx.case(f"blur/{d}D/{'unequal' if unequal else 'equal'}/rank{rank}", snaps.snapshots[0].positions, A, ng, sigma, cut, ppp,
              nontrivial=int(np.prod(ng)) > 1, sample={"d": d, "N": N, "ngrids": ng, "sigma": sigma, "cut": cut, "ppp": ppp, "rank": rank})
@@ -100,9 +103,12 @@ def case_blur(ctx, rng, wd, unequal):
         return
     gp, gv = res
     npts = int(np.prod(ng))
-    lo = cell["origin"]
-    axes = [np.linspace(lo[k], lo[k] + L[k], ng[k]) for k in range(d)]
-    expg = np.array(list(itertools.product(*axes)))              # x slowest: row-major
+    expgs = []
+    for c in cells:
+        lo, Lc = c["origin"], np.diag(c["H"])
+        axes = [np.linspace(lo[k], lo[k] + Lc[k], ng[k]) for k in range(d)]
+        expgs.append(np.array(list(itertools.product(*axes))))              # x slowest: row-major
+    expg = expgs[0]
     gp = np.asarray(gp)
     gv = np.asarray(gv)
     if not ctx.check("grid_positions", gp.shape == (T, npts, d) and gv.shape == (T, npts) + A.shape[2:], key + "/shapes",
@@ -110,14 +116,14 @@ def case_blur(ctx, rng, wd, unequal):
         return
     okp = True
     for t in range(T):
-        okp &= bool(np.abs(gp[t] - expg).max() <= 1e-12 * max(1.0, np.abs(expg).max()))
+        okp &= bool(np.abs(gp[t] - expgs[t]).max() <= 1e-12 * max(1.0, np.abs(expgs[t]).max()))
     if not ctx.check("grid_positions", okp, key + "/grid",
                      lambda: f"grid is not the full Cartesian product in row-major order: {len(np.unique(np.round(gp[0], 9), axis=0))} distinct points of {npts}", info):
         return
     for t in range(T):
         pos = snaps.snapshots[t].positions
-        dR = (expg[:, None, :] - pos[None, :, :]).reshape(-1, d)
-        _v, dist, _ = geom.min_image_vectors(dR, cell["H"], ppp)
+        dR = (expgs[t][:, None, :] - pos[None, :, :]).reshape(-1, d)
+        _v, dist, _ = geom.min_image_vectors(dR, cells[t]["H"], ppp)
         dist = dist.reshape(npts, N)
         if np.any(np.abs(dist - cut) < 1e-9):
             ctx.skip("grid_values")
